@@ -353,3 +353,18 @@ func ForeignConfigs(p *spec.Program) []spec.Config {
 	b.ExcludeFields = []string{"Other.EpsTags"}
 	return []spec.Config{a, b}
 }
+
+// FailingProgram: several selected types that cannot be mapped in one request (time / duration without
+// time_type / duration_type, an integer map key), next to types that can. Whatever the plugin answers —
+// files, error field — is part of the response.
+func FailingProgram() *spec.Program {
+	p := c18Base()
+	for i, msg := range []string{"RootA", "RootC", "RootE", "Shared", "RootD2", "D12", "SelInner"} {
+		k := badKinds[(i*3)%len(badKinds)]
+		if k.field("x", 1).Ref != "" {
+			k = badKinds[0]
+		}
+		p, _ = withBad(p, badPos{name: "c14", msg: msg, first: i%2 == 0}, k)
+	}
+	return p
+}
